@@ -914,6 +914,90 @@ func c09R4GcIndex(c *Ctx, R4 string, h *c09Helpers) {
 
 // ---------------------------------------------------------------- R5
 
+// c09StoreState: the fields of oci.Store that s.sync protects.
+var c09StoreState = map[string]bool{"root": true, "indexPath": true, "index": true, "storage": true, "tagResolver": true, "graph": true}
+
+// c09UsesStoreState: v is the store itself (handed on as a whole) or is computed
+// from one of its lock-protected fields; option fields (AutoGC, …) do not count.
+func c09UsesStoreState(v, recv ssa.Value) bool {
+	found := false
+	seen := map[ssa.Value]bool{}
+	var walk func(x ssa.Value, d int)
+	walk = func(x ssa.Value, d int) {
+		if x == nil || d > 8 || seen[x] || found {
+			return
+		}
+		seen[x] = true
+		if x == recv {
+			found = true
+			return
+		}
+		switch u := x.(type) {
+		case *ssa.FieldAddr:
+			if u.X == recv {
+				name := fieldName(u.X.Type(), u.Field)
+				if c09StoreState[name[strings.LastIndex(name, ".")+1:]] {
+					found = true
+				}
+				return
+			}
+			walk(u.X, d+1)
+		case *ssa.UnOp:
+			walk(u.X, d+1)
+		case *ssa.Field:
+			walk(u.X, d+1)
+		case *ssa.IndexAddr:
+			walk(u.X, d+1)
+		case *ssa.Index:
+			walk(u.X, d+1)
+		case *ssa.Slice:
+			walk(u.X, d+1)
+		case *ssa.MakeInterface:
+			walk(u.X, d+1)
+		case *ssa.ChangeType:
+			walk(u.X, d+1)
+		case *ssa.ChangeInterface:
+			walk(u.X, d+1)
+		case *ssa.Convert:
+			walk(u.X, d+1)
+		case *ssa.Extract:
+			walk(u.Tuple, d+1)
+		case *ssa.Phi:
+			for _, e := range u.Edges {
+				walk(e, d+1)
+			}
+		case *ssa.Call:
+			for _, a := range u.Call.Args {
+				walk(a, d+1)
+			}
+		case *ssa.Alloc:
+			var inner func(a ssa.Value, dd int)
+			inner = func(a ssa.Value, dd int) {
+				if dd > 3 || a.Referrers() == nil {
+					return
+				}
+				for _, r := range *a.Referrers() {
+					switch w := r.(type) {
+					case *ssa.Store:
+						if w.Addr == a {
+							walk(w.Val, d+1)
+						}
+					case *ssa.FieldAddr:
+						inner(w, dd+1)
+					case *ssa.IndexAddr:
+						if w.X == a {
+							inner(w, dd+1)
+						}
+					}
+				}
+			}
+			inner(u, 0)
+		}
+	}
+	walk(v, 0)
+	return found
+}
+
 func c09R5(c *Ctx) {
 	const R5 = "C09.R5.exclusive"
 	c.Expect(R5, 2)
@@ -938,7 +1022,7 @@ func c09R5(c *Ctx) {
 			}
 			uses := false
 			for _, a := range call.Call.Args {
-				if c09Uses(a, recv, 0) {
+				if c09UsesStoreState(a, recv) {
 					uses = true
 				}
 			}
